@@ -57,12 +57,13 @@ func (a *Application) proxyHandler(w http.ResponseWriter, r *http.Request) {
 	// so its StripPrefix is a no-op. This mirrors providerProxyHandler (line 100).
 	r.URL.Path = pr.targetPath
 
-	err = a.executeProxyRequest(ctx, w, r, endpoints, pr)
+	sw := &startedWriter{ResponseWriter: w}
+	err = a.executeProxyRequest(ctx, sw, r, endpoints, pr)
 
 	a.logRequestResult(pr, err)
 
 	if err != nil {
-		a.handleProxyError(w, err)
+		a.handleProxyError(sw, err)
 	}
 }
 
@@ -341,7 +342,40 @@ func (a *Application) handleEndpointError(w http.ResponseWriter, pr *proxyReques
 // only send error response if we haven't started streaming yet.
 // content-type check prevents double-writing response after partial stream
 // (learned this the hard way when users got html error messages appended to their json)
+// startedWriter notes whether the proxy has begun a response on this writer
+type startedWriter struct {
+	http.ResponseWriter
+	started bool
+}
+
+func (s *startedWriter) WriteHeader(statusCode int) {
+	s.started = true
+	s.ResponseWriter.WriteHeader(statusCode)
+}
+
+func (s *startedWriter) Write(p []byte) (int, error) {
+	s.started = true
+	return s.ResponseWriter.Write(p)
+}
+
+func (s *startedWriter) Flush() {
+	if f, ok := s.ResponseWriter.(http.Flusher); ok {
+		f.Flush()
+	}
+}
+
+// Unwrap lets http.ResponseController reach the underlying writer
+func (s *startedWriter) Unwrap() http.ResponseWriter {
+	return s.ResponseWriter
+}
+
+// handleProxyError reports a failure to the client unless a backend's response is already
+// on its way: an error page must not be appended to (or change the status of) a response
+// that has begun, whether or not that response carries a Content-Type.
 func (a *Application) handleProxyError(w http.ResponseWriter, err error) {
+	if sw, ok := w.(*startedWriter); ok && sw.started {
+		return
+	}
 	if w.Header().Get(constants.HeaderContentType) == "" {
 		http.Error(w, fmt.Sprintf("Proxy error: %v", err), http.StatusBadGateway)
 	}
